@@ -65,6 +65,22 @@ func cmdReplay(args []string) {
 		fmt.Println("harness does not load against the current tree:", oneLine(err.Error()))
 		os.Exit(2)
 	}
+	if isToolHarness(tp.Harness) {
+		for from, to := range spec.Subst {
+			if err := e.AddSubst(from, to); err != nil {
+				fmt.Println("substitution:", err)
+				os.Exit(2)
+			}
+		}
+		ok, note := toolConfirm(&runResult{spec: spec, engine: e}, pkg, &tp, tp.Assert)
+		fmt.Printf("replay %s: harness=%s %s\n", filepath.Base(path), tp.Harness, note)
+		if ok {
+			fmt.Printf("VIOLATION property=%s replay=%s\n", id, path)
+			os.Exit(1)
+		}
+		fmt.Println("the tape no longer violates", tp.Assert, "on the current tree")
+		return
+	}
 	rep, err := nativeReplay(e, spec, pkg, []string{path}, 3)
 	if err != nil {
 		fmt.Println("native replay failed to run:", oneLine(err.Error()))
@@ -83,4 +99,12 @@ func cmdReplay(args []string) {
 		os.Exit(1)
 	}
 	fmt.Println("the tape no longer violates", tp.Assert, "on the current tree")
+}
+
+// targetDir: harness directory -> directory of the repository package it is overlaid on.
+func targetDir(d string) string {
+	if d == "root" {
+		return "."
+	}
+	return d
 }
